@@ -102,3 +102,56 @@ def replay_file(ck, path, cmp=("value",)):
         s["mode"] = case["mode"]
     run_families(ck, [("replay", [s], cmp)])
     return ck.finish()
+
+
+def binding_selftest(ck, verdicts, maxsteps=60000, n=24):
+    """Binding self-test: corrupt one recorded field of sessions the specification accepted (flip a value, drop an output
+    character, change an error class, leave residue) and require CalcSem to reject every corrupted record.  A corrupted
+    record that is still accepted means the judge is not binding: infrastructure failure (exit 2), never a verdict."""
+    import copy
+    cand = [v for v in verdicts if v.status == "accept" and not v.accept.get("unspec") and getattr(v, "tlc_in", None)]
+    made = []
+    for v in cand:
+        if len(made) >= n:
+            break
+        ts = copy.deepcopy(v.tlc_in)
+        cmp_ = ts.get("cmp", ["value"])
+        done = None
+        for kk in range(4):
+            k = (len(made) + kk) % 4
+            for i, r in enumerate(ts["rec"]):
+                if r.get("kind") == "val" and "value" in cmp_:
+                    val = r["val"]
+                    if k == 0 and val.get("k") == "int":
+                        val["v"] += 1
+                        done = "value of item %d incremented" % (i + 1)
+                    elif k == 1 and r.get("out"):
+                        r["out"] = r["out"][:-1]
+                        done = "last output character of item %d dropped" % (i + 1)
+                    elif k == 2 and val.get("k") in ("int", "bool", "str", "arr", "float"):
+                        r["val"] = {"k": "nil"}
+                        done = "value of item %d replaced by nil" % (i + 1)
+                    elif k == 3 and "residue" in cmp_ and r.get("residue"):
+                        r["residue"]["sp"] = 1
+                        done = "residue sp of item %d set to 1" % (i + 1)
+                elif r.get("kind") == "err" and k == 2:
+                    r["err"] = "index" if r["err"] != "index" else "arity"
+                    done = "error class of item %d changed" % (i + 1)
+                if done:
+                    break
+            if done:
+                break
+        if done:
+            ts["id"] = 9000000 + len(made)
+            made.append((ts, done, v))
+    if not made:
+        return
+    res = sess.judge_recorded([m[0] for m in made], maxsteps=maxsteps, ck=ck, part="binding self-test (corrupted records must be rejected)")
+    rejected = 0
+    for ts, what, v in made:
+        st = res.get(ts["id"], ("lost", None))[0]
+        if st == "diverge":
+            rejected += 1
+        else:
+            raise vlib.Infra("binding self-test: a corrupted record (%s, session %s) was accepted by the specification" % (what, v.session["id"]))
+    ck.part("binding self-test (corrupted records must be rejected)", corrupted=len(made), rejected=rejected)
